@@ -17,6 +17,6 @@ if [ -f "$ROOT/harness/$DRV.cpp" ]; then SRC=$ROOT/harness/$DRV.cpp; CC=clang++-
 T=$OUT/.tmp.$$; trap 'rm -f "$T.o" "$T.bin"' EXIT
 clang-$CCV -O1 -g $SAN -c "$ROOT/harness/verif_rt.c" -o "$T.o"
 $CC -O1 -g $SAN $STD -fblocks -Wno-everything $DEFS $INC ${EXTRA_CFLAGS} "$SRC" "$T.o" \
-  "$BD/src/libdispatch.a" "$BD/src/BlocksRuntime/libBlocksRuntime.a" -lpthread -lrt -lstdc++ -lm ${EXTRA_LIBS} -o "$T.bin"
+  "$BD/src/libdispatch.a" "$BD/src/BlocksRuntime/libBlocksRuntime.a" -rdynamic -lpthread -lrt -lstdc++ -lm ${EXTRA_LIBS} -o "$T.bin"
 mv -f "$T.bin" "$OUT/$DRV"
 echo "$OUT/$DRV"
